@@ -625,7 +625,7 @@ example :
 
 /-! non-vacuity of `C05_published_instance_is_flat_call_stateless_arms`: `g(y) = y*2`, `h(y) = if y then g(y) else 3`,
 `dsp(x) = mem(x) + (if x then h(x) else g(1) + g(2))`: outside the narrow class, inside the wide one; the labelled layout
-lists the (zero-sized) cells of the `then` arm only, the bare skeleton is `F[M1]` -/
+lists the (zero-sized) cells of both arms, `then` first, the bare skeleton is `F[M1]` -/
 example :
     let gF : FnDecl := ⟨"g", ["y"], .bin .mul (.var "y") (.lit 2), none⟩
     let hF : FnDecl := ⟨"h", ["y"], .ite (.var "y") (.call "g" [.var "y"] 0) (.lit 3), none⟩
@@ -633,7 +633,7 @@ example :
       .bin .add (.mem (.var "x") 0)
         (.ite (.var "x") (.call "h" [.var "x"] 1) (.bin .add (.call "g" [.lit 1] 2) (.call "g" [.lit 2] 3))), none⟩
     let P : Prog := ⟨[], [gF, hF], dspF⟩
-    let lay : LNode := ⟨none, [.mem 0, .child 1 none [.child 0 none []]]⟩
+    let lay : LNode := ⟨none, [.mem 0, .child 1 none [.child 0 none []], .child 2 none [], .child 3 none []]⟩
     publishFn P dspF = some lay ∧ noStateInArms P dspF.body = false ∧ noStatefulInArms P dspF.body = true ∧
     SitesUnique P ∧ SitesOk dspF.body ∧ publishedSk lay = .fn [.mem 1] := by
   intro gF hF dspF P lay
@@ -643,21 +643,33 @@ example :
     rcases hd with rfl | rfl <;> simp [SitesOk, siteLens, siteLensL, gF, hF]
   · simp [SitesOk, siteLens, siteLensL, dspF]
 
-/-- **outside the class the layout is not visited (finding F3, model level).**  `counter() = self + 1`,
-`dsp() = if (now > 2) counter() else counter()*100`: mirgen publishes ONE child (the `then` arm's, the sizes tie), the
-class predicate is false, and no layout whatsoever is visited in order by this body — the reference semantics keeps
-two instances of `counter` (one per call site), the published storage has room for one -/
-theorem C05_state_in_arms_not_visited :
+/-- **state inside `if` arms: every call site owns its own cell (formerly finding F3, repaired by F3-1).**
+`counter() = self + 1`, `dsp() = if (now > 2) counter() else counter()*100`: the compiler publishes TWO children, one per
+call site, `then` arm first (before the repair: one, overlaid); the layout is well formed (`LNode.Ok`), covers both call
+sites (`Covers`), and the bare skeleton has two one-word instances.  The program is outside the class of the strict
+straight-line discipline (`Visits` demands stateless arms: a call visits only the cells of the arm taken), which is what
+`VisitsA` / `C05_eval_state_effect_is_tree_ops_arms` generalise -/
+theorem C05_state_in_arms_own_cells :
     let counterF : FnDecl := ⟨"counter", [], .bin .add .self (.lit 1), some .num⟩
     let dsp : FnDecl := ⟨"dsp", [],
       .ite (.bin .gt .now (.lit 2)) (.call "counter" [] 1) (.bin .mul (.call "counter" [] 2) (.lit 100)), none⟩
     let P : Prog := ⟨[], [counterF], dsp⟩
-    publishFn P dsp = some ⟨none, [.child 1 (some .num) []]⟩ ∧ noStateInArms P dsp.body = false ∧
-    ∀ seg, ¬ Visits P dsp.body seg := by
-  intro counterF dsp P
-  refine ⟨rfl, rfl, ?_⟩
-  intro seg h
-  cases h with
-  | ite _ ha _ => exact visits_call_ne_nil ha
+    let lay : LNode := ⟨none, [.child 1 (some .num) [], .child 2 (some .num) []]⟩
+    publishFn P dsp = some lay ∧ noStateInArms P dsp.body = false ∧ lay.Ok ∧ Covers P lay.cells dsp.body ∧
+    publishedSk lay = .fn [.fn [.feed 1], .fn [.feed 1]] ∧ (∀ seg, ¬ Visits P dsp.body seg) := by
+  intro counterF dsp P lay
+  have hfind : ∀ d, findFn P.fns "counter" = some d → d = counterF := by
+    intro d hd
+    simp [P, findFn, counterF] at hd
+    exact hd.symm
+  refine ⟨rfl, rfl, by simp [lay, LNode.Ok, LayOkL, LayOk, sitesOf, LCell.site], ?_, rfl, ?_⟩
+  · refine .ite (.bin .now .lit) ?_ (.bin ?_ .lit)
+    · exact .call (self := some .num) (cells' := []) (by simp) (by simp [lay])
+        (fun d hd => by rw [hfind d hd]) (fun d hd => by rw [hfind d hd]; exact .bin .self .lit)
+    · exact .call (self := some .num) (cells' := []) (by simp) (by simp [lay])
+        (fun d hd => by rw [hfind d hd]) (fun d hd => by rw [hfind d hd]; exact .bin .self .lit)
+  · intro seg h
+    cases h with
+    | ite _ ha _ => exact visits_call_ne_nil ha
 
 end Mimium.Publish
